@@ -12,5 +12,5 @@ rc=0
 for id in $(python3 -c "import json;print(' '.join(c['property_id'].lower() for c in json.load(open('/verif/MANIFEST.json'))['checks']))"); do
   go build -tags verif -o "/verif/bin/$id" "./drivers/$id" || { echo "build failed: $id"; rc=1; }
 done
-[ $rc = 0 ] && echo setup ok
-exit $rc
+[ $rc = 0 ] && echo setup ok || echo "setup finished with build failures (the affected checks will report exit 2)"
+exit 0
